@@ -76,6 +76,27 @@ fn main() {
             }
             emit(&mut out, r);
         }
+        // 2b. the same string handed to reference / reference_mut as a path: Some or None, whatever the string
+        {
+            use jsonpath_rust::query::queryable::Queryable;
+            emit(&mut out, json!({"ev":"call","id":id,"entry":"reference"}));
+            let res = guarded(|| doc.reference(q.clone()).is_some());
+            let mut r = json!({"ev":"return","id":id,"entry":"reference"});
+            match res {
+                Err(p) => { r["outcome"] = json!("panic"); r["detail"] = json!(p); }
+                Ok(b) => { r["outcome"] = json!(if b { "some" } else { "none" }); }
+            }
+            emit(&mut out, r);
+            emit(&mut out, json!({"ev":"call","id":id,"entry":"reference_mut"}));
+            let mut copy = doc.clone();
+            let res = guarded(|| copy.reference_mut(q.clone()).is_some());
+            let mut r = json!({"ev":"return","id":id,"entry":"reference_mut"});
+            match res {
+                Err(p) => { r["outcome"] = json!("panic"); r["detail"] = json!(p); }
+                Ok(b) => { r["outcome"] = json!(if b { "some" } else { "none" }); }
+            }
+            emit(&mut out, r);
+        }
         // 3. evaluating a successfully parsed query always succeeds
         if let Some(jq) = pq {
             emit(&mut out, json!({"ev":"call","id":id,"entry":"js_path_process"}));
